@@ -322,8 +322,10 @@ func runTyped(t *tally, sig string, name string, in []byte, want resJ, canon boo
 	err = guard(func() (e error) { out, e = krlp.EncodeToBytes(ptr.Interface()); return })
 	if err != nil || !bytes.Equal(out, in) {
 		if !canon {
-			// predicted by the specification: deviation OptionalZero of RLPTyped.tla
-			t.res.Mismatch("rlp:typed:optional-zero:"+name,
+			// predicted by the specification: deviation OptionalZero of RLPTyped.tla.  One defect, one
+			// signature - the one it is registered under (first seen on schema OptS); the schema
+			// actually hit is named in the text.
+			t.res.Mismatch("rlp:typed:optional-zero:OptS",
 				fmt.Sprintf("DecodeBytes(%s) accepts %s, which is NOT the canonical encoding of the value it decodes to (%s encodes to %s): "+
 					"an optional field of non-pointer type given explicitly with its zero value is accepted (two inputs, one value)",
 					name, shortHex(in), treeString(gt), shortHex(out)), detail)
@@ -334,6 +336,19 @@ func runTyped(t *tally, sig string, name string, in []byte, want resJ, canon boo
 	} else if !canon {
 		t.res.Mismatch(sig+":canon:spec-predicted-noncanonical:"+name,
 			fmt.Sprintf("the specification predicts that %s is a non-canonical input accepted for %s, the real re-encoding is identical", shortHex(in), name), detail)
+	}
+	// decoding into a value that already holds data: codec fields are overwritten / zeroed, fields the
+	// codec does not see (rlp:"-", unexported) keep what they had and do not shift the others
+	if fullTypes[typ] {
+		p3 := reflect.New(typ)
+		prepopulate(p3.Elem())
+		err = guard(func() error { return krlp.DecodeBytes(in, p3.Interface()) })
+		if t.check(sig, "DecodeBytes(prepopulated "+name+")", in, want.E, err, detail) {
+			w3 := keepIgnored(typ, wt)
+			g3 := gotTree(p3.Elem())
+			t.value(sig, "DecodeBytes(prepopulated "+name+")", in, reflect.DeepEqual(g3, w3),
+				fmt.Sprintf("decoded into a prepopulated value: %s, specified %s (ignored fields must keep the sentinel ee / true)", treeString(g3), treeString(w3)), detail)
+		}
 	}
 	// a second decoder instance must agree (Stream.Decode through an explicit stream)
 	ptr2 := reflect.New(typ)
